@@ -17,6 +17,13 @@ def units(tier, seed):
     us = cases.fault_units(tier, seed, with_prims=True)
     for u in us:
         u["seed"], u["tier"] = seed, tier
+    # the same frames and streams decoded under a non-default root path (an argument of the decoder's API)
+    for u in cases.fault_units(tier, seed, k=0, with_prims=False, with_structs=False):
+        if u["variant"] in ("plain", "pair", "cmd-only", "sess1", "failed"):
+            us.append(dict(u, seed=seed, tier=tier, root_path="log.entry[3]", label=u["label"] + "@root"))
+    for u in cases.fault_units(tier, seed, k=0, with_prims=False, with_streams=False, cc_filter=lambda c: False):
+        if u["variant"] == "rich":
+            us.append(dict(u, seed=seed, tier=tier, root_path="x", label=u["label"] + "@root"))
     us += bscope.units(tier, seed)
     return us
 
